@@ -59,14 +59,14 @@ class Unsupported(Exception):
 def to_term(v):
     """real syntax tree node / runtime value -> nested python lists in the Run.v term encoding"""
     import numpy as np
-    from klongpy.core import KGSym, KGChar, KGFn, KGCall, KGOp, KGCond, KGLambda, KGExprArray
+    from klongpy.core import KGSym, KGChar, KGFn, KGCall, KGOp, KGCond, KGLambda, KGExprArray, is_char
     if v is None:
         return ["n"]
     if isinstance(v, (bool, np.bool_)):
         return ["i", int(v)]
     if isinstance(v, (int, np.integer)):
         return ["i", int(v)]
-    if isinstance(v, KGChar):
+    if is_char(v):      # klongpy.types.KGChar and the backend's own KGChar class
         return ["c", ord(str(v))]
     if isinstance(v, KGSym):
         return ["y", name_code(v)]
@@ -90,7 +90,7 @@ def to_term(v):
         if v.is_op():
             op, ar = v.a.a, v.a.arity
             if ar == 1:
-                if op not in OP1 or isinstance(v.args, list):
+                if op not in OP1 or type(v.args) is list:
                     raise Unsupported("monad " + str(op))
                 return ["o1", OP1[op], to_term(v.args)]
             if ar == 2:
@@ -545,7 +545,8 @@ MISC = [
     ['f::{x+1}', 'g::{x(y)}', 'g(f;2)', 'g({x*2};4)', '{x@y}(f;3)', 'f@1', 'f@[1]', 'h::f', 'h(1)'],
     ['a::5', '{:[a;b;c];a}()', 'a'],
     ['f::{x,y,z}', 'g::f(1;;)', 'g(2)', 'f(1;2)', 'f()', 'f(1;2;3;4)'],
-    ['{1}', '{x}', '{}', 'f::{7}', 'f()', 'f', 'f(1)'],
+    ['{1}', '{x}', 'f::{7}', 'f()', 'f', 'f(1)'],
+    ['-:[1;5;6]', '#:[0;"abc";"de"]', 'f::{-:[x;y;z]}', 'f(1;2;3)', 'f(0;2;3)', '{:[:[a;b;c];1;2]}()', 'a::0', 'c::0', '{:[:[a;b;c];1;2]}()'],
     ['{x(2)}(5)', 'x', 'x::3', 'x', '{x}(9)', '{y}(1)', 'y'],
     ['f::{[a];a::x;g(1)}', 'g::{a::a+x}', 'a::100', 'f(5)', 'a'],
     ['f::{nn::x}', 'f(1)', 'nn', 'nn::0', 'f(2)', 'nn'],
